@@ -387,7 +387,10 @@ def calculate_nd_frequencies(
             index[data[:, i] == axis_edges[-1]] = len(axis_edges) - 2  # As numpy does
             inside &= np.isin(index, mask)
         missing = _cast_contents(weights[~inside].sum(), dtype)
-        err_freq, _ = np.histogramdd(data, edges, weights=weights**2)
+        # (Integer weights are squared as floats: their squares may not fit 64 bits)
+        err_freq, _ = np.histogramdd(
+            data, edges, weights=weights.astype(np.float64) ** 2 if weights.dtype.kind in "iu" else weights**2
+        )
         errors2 = _cast_contents(err_freq[ixgrid], dtype)
     else:
         missing = _cast_contents(data.shape[0] - frequencies.sum(dtype=np.int64), dtype)
@@ -503,6 +506,14 @@ def calculate_1d_frequencies(
     # Fill frequencies and errors
     frequencies = np.zeros(bins.shape[0], dtype=inferred_dtype)
     errors2 = np.zeros(bins.shape[0], dtype=inferred_dtype)
+    squared_weights: np.ndarray = weights_array
+    if (
+        weights_array.dtype.kind in "iu"
+        and weights_array.size
+        and float(np.abs(weights_array).max()) ** 2 * weights_array.size >= 2**62
+    ):
+        # The squares (or their sums) would wrap around in 64 bits: python integers
+        squared_weights = weights_array.astype(object)
     for xbin, bin in enumerate(bins):
         start = np.searchsorted(data_array, bin[0], side="left")
         stop = np.searchsorted(data_array, bin[1], side="left")
@@ -516,7 +527,7 @@ def calculate_1d_frequencies(
             overflow = weights_array[stop:].sum()
 
         frequencies[xbin] = weights_array[start:stop].sum()
-        errors2[xbin] = (weights_array[start:stop] ** 2).sum()
+        errors2[xbin] = (squared_weights[start:stop] ** 2).sum()
 
     # Underflow and overflow don't make sense for unconsecutive binning.
     if not _bin_utils.is_consecutive(bins):
